@@ -456,6 +456,7 @@ def install_spies():
     orig_call = cproblem.Problem.__call__
     _ORIG["Problem.__call__"] = orig_call
 
+    @functools.wraps(orig_call)
     def spy_call(self, *a, **kw):
         rec = CUR
         if rec is None:
@@ -512,6 +513,7 @@ def install_spies():
     orig_init = TR.__init__
     _ORIG["TrustRegion.__init__"] = orig_init
 
+    @functools.wraps(orig_init)
     def spy_init(self, *a, **kw):
         rec = CUR
         if rec is None:
@@ -565,6 +567,7 @@ def install_spies():
     orig_sbi = TR.set_best_index
     _ORIG["TrustRegion.set_best_index"] = orig_sbi
 
+    @functools.wraps(orig_sbi)
     def spy_sbi(self, *a, **kw):
         out = orig_sbi(self, *a, **kw)
         rec = CUR
@@ -586,6 +589,7 @@ def install_spies():
     orig_idx = TR.get_index_to_remove
     _ORIG["TrustRegion.get_index_to_remove"] = orig_idx
 
+    @functools.wraps(orig_idx)
     def spy_idx(self, *a, **kw):
         out = orig_idx(self, *a, **kw)
         rec = CUR
@@ -607,6 +611,7 @@ def install_spies():
     import inspect
     build_sig = inspect.signature(orig_build)
 
+    @functools.wraps(orig_build)
     def spy_build(*a, **kw):
         rec = CUR
         if rec is not None:
@@ -657,6 +662,7 @@ def install_spies():
     orig_minit = M.__init__
     _ORIG["Models.__init__"] = orig_minit
 
+    @functools.wraps(orig_minit)
     def spy_minit(self, *a, **kw):
         out = orig_minit(self, *a, **kw)
         rec = CUR
